@@ -92,6 +92,8 @@ struct KnownMethods {
 
 impl KnownMethods {
     fn build() -> KnownMethods {
+        #[cfg(feature = "verif_hooks")]
+        let _no_preempt = crate::verif_hooks::NoPreempt::enter();
         let mut methods = HashMap::new();
 
         fn add_methods(
